@@ -233,8 +233,9 @@ func (m *Manager) onParserFinish(header *parser.PacketHeader, eventName string, 
 	if !ok {
 		return
 	}
+	epoch := m.connEpoch.Load()
 	if header.Type == parser.PacketTypeAck || header.Type == parser.PacketTypeBinaryAck {
-		go socket.onPacket(header, eventName, decode)
+		go socket.onPacket(header, eventName, decode, epoch)
 		return
 	}
 	// Events are handled one at a time, in the order they were received. So are the CONNECT
@@ -244,12 +245,11 @@ func (m *Manager) onParserFinish(header *parser.PacketHeader, eventName string, 
 	// that was still on its way. Otherwise, an event would wait in the receive buffer for the next
 	// connection, and if the session is recovered, the server sends it once more (it is past
 	// the last offset that the socket has seen): the handler would run twice for it.
-	epoch := m.connEpoch.Load()
 	socket.packetRunner.add(func() {
 		if m.connEpoch.Load() != epoch {
 			return
 		}
-		socket.onPacket(header, eventName, decode)
+		socket.onPacket(header, eventName, decode, epoch)
 	})
 }
 
